@@ -8,6 +8,9 @@ import ArcSwapModel.Tie.LibStore
 import ArcSwapModel.Tie.HybridCas
 import ArcSwapModel.Inv.Surplus
 import ArcSwapModel.Inv.Touch4
+import ArcSwapModel.Inv.HazH4
+import ArcSwapModel.Inv.FaultFree
+import ArcSwapModel.Inv.EnvEx
 
 /-!
 # C01 — no use-after-free (partial: containers and handles keep their value alive — global theorem;
@@ -28,10 +31,16 @@ invariant for the fast slots (`Inv/Haz0 … Haz6`, `C01_confirmed_slot_protects_
 it, has the value still in a container or ahead of it the walk of a thread that took the value out
 — along every execution in which containers are created on fresh cells; they may be consumed and
 dropped at any time (`Inv/Busy*`, `HazD1 … HazD4`: a container being destroyed is worked on by its
-destroyer alone — the harness's `busy` discipline, in Rust the by-value receiver).  Not covered by
-that invariant: debts in the helping slot (the fallback path, correct only up to a wrap of the
-generation counter).  The per-step facts the invariant composes — each for every shared state, i.e.
-for every behaviour of the other threads:
+destroyer alone — the harness's `busy` discipline, in Rust the by-value receiver).  The debt in the
+*helping* slot (the fallback path) has its own invariant (`Inv/ActAddr`, `HazH1 … HazH4`): inside
+the reader's window the candidate is still in its container or the writer that took it out cannot
+get past the help on the reader's node without handing a replacement over; after the window the
+slot is ahead of that writer's walk — so the fallback's increment touches a live object
+(`C01_fallback_candidate_alive_partial`) and with it *every* count operation does
+(`C01_every_count_touched_only_while_alive_partial`); these hold along executions in which no
+hand-over succeeds (the ledger's assumption `NoEnv`), which is also where a wrap of the generation
+counter cannot matter.  The per-step facts the invariants compose — each for every shared state,
+i.e. for every behaviour of the other threads:
 
 1. **publish, then confirm**: a load returns a borrowed guard (one with a debt) only from the
    confirming read, at a step at which the cell holds exactly the pointer that the reader had
@@ -441,6 +450,134 @@ theorem C01_count_step_no_fault_partial (K N T : Nat) (hK : 0 < K) (cfg : Cfg)
     (microStep (run (State.initial cfg progs) sched) t b).1.sh.fault = none :=
   count_step_no_fault K N T hK cfg progs sched he hf a ha t ht b htouch hnh
 
+/-- **the helping slot, inside the window.**  While a reader of the fallback path is between the
+    read of its candidate and the end of its window (`confirm`'s exchange of the control word), the
+    candidate is still the content of the container it was read from, or a writer that took it out
+    of that very container is walking the list and has not got past the `help` on the reader's node:
+    it has not reached the node, or it is inside `help` on it and has read nothing yet or the
+    reader's generation.  Partial: along executions in which no hand-over succeeds (`EnvRun0`), which
+    is exactly what keeps such a writer from getting past (its hand-over would succeed). -/
+theorem C01_candidate_protected_in_window_partial (K N T : Nat) (cfg : Cfg) (progs : Nat → List (String × Op))
+    (sched : List (Nat × Bool)) (he : EnvRun0 K N T (State.initial cfg progs) sched)
+    (hf : (run (State.initial cfg progs) sched).sh.fault = none)
+    (o n c g a : Nat) (lp : LP) (hlp : ((run (State.initial cfg progs) sched).th o).op.lp? = some lp)
+    (hcand : lp.cand? = some (g, a)) (hnode : ((run (State.initial cfg progs) sched).th o).loc.node = some n)
+    (hcell : ((run (State.initial cfg progs) sched).th o).op.cell? = some c) :
+    (run (State.initial cfg progs) sched).sh.cells c = some a ∨
+      ∃ w pp L, ((run (State.initial cfg progs) sched).th w).op.walkC? = some (a, pp) ∧
+        ((run (State.initial cfg progs) sched).th w).op.cell? = some c ∧ pp.preHelp L n g :=
+  candidate_protected_in_window K N T cfg progs sched he hf o n c g a lp hlp hcand hnode hcell
+
+/-- **the helping slot, confirmed.**  While the reader holds its confirmed candidate in the helping
+    slot of its node and has not yet taken its own reference, the value is in a container nobody is
+    destroying, or a writer that took it out has that slot still ahead of its walk (it will pay the
+    debt), or the reader is itself the destroyer of the container that holds it. -/
+theorem C01_confirmed_helping_slot_protects_its_value_partial (K N T : Nat) (cfg : Cfg)
+    (progs : Nat → List (String × Op)) (sched : List (Nat × Bool))
+    (he : EnvRun0 K N T (State.initial cfg progs) sched)
+    (hf : (run (State.initial cfg progs) sched).sh.fault = none)
+    (o n a : Nat) (lp : LP) (hlp : ((run (State.initial cfg progs) sched).th o).op.lp? = some lp)
+    (hconf : lp.confirmed a) (hnode : ((run (State.initial cfg progs) sched).th o).loc.node = some n)
+    (hs : ((run (State.initial cfg progs) sched).sh.nodes n).hslot = .ptr a) :
+    (∃ c, c < N ∧ (run (State.initial cfg progs) sched).sh.cells c = some a ∧
+        (run (State.initial cfg progs) sched).ctaken c = false) ∨
+      (∃ w pp L, ((run (State.initial cfg progs) sched).th w).op.walkC? = some (a, pp) ∧ pp.ahead L n slotCnt) ∨
+      (((run (State.initial cfg progs) sched).th o).op.cons = true ∧
+        ∃ pp, ((run (State.initial cfg progs) sched).th o).op.walkC? = some (a, pp)) :=
+  confirmed_hslot_protected K N T cfg progs sched he hf o n a lp hlp hconf hnode hs
+
+/-- **the fallback's own reference is taken from a live object**: at the step at which the fallback
+    path increments the count of the candidate it has confirmed (`T::inc` in
+    `HybridProtection::fallback`), the candidate has not been destroyed and its count is positive. -/
+theorem C01_fallback_candidate_alive_partial (K N T : Nat) (hK : 0 < K) (cfg : Cfg)
+    (progs : Nat → List (String × Op)) (sched : List (Nat × Bool))
+    (he : EnvRun0 K N T (State.initial cfg progs) sched)
+    (hf : (run (State.initial cfg progs) sched).sh.fault = none) (a : Nat) (ha : a ≠ 0)
+    (t : Nat) (ht : t < T)
+    (hlp : ((run (State.initial cfg progs) sched).th t).op.lp? = some (.fokInc a)) :
+    1 ≤ ((run (State.initial cfg progs) sched).sh.heap a).cnt ∧
+      ((run (State.initial cfg progs) sched).sh.heap a).live = true :=
+  fallback_candidate_alive K N T hK cfg progs sched he hf a ha t ht hlp
+
+/-- **no reference count is touched after destruction — every step, the fallback path included.**
+    `C01_count_touched_only_while_alive_partial` without its exception: whatever step of whatever
+    operation increments or decrements the count of a (non-null) object, the object is alive and
+    its count positive — so the step raises no fault.  Partial only in the executions covered
+    (`EnvRun0`: the program discipline, room in the pool, no successful hand-over). -/
+theorem C01_every_count_touched_only_while_alive_partial (K N T : Nat) (hK : 0 < K) (cfg : Cfg)
+    (progs : Nat → List (String × Op)) (sched : List (Nat × Bool))
+    (he : EnvRun0 K N T (State.initial cfg progs) sched)
+    (hf : (run (State.initial cfg progs) sched).sh.fault = none) (a : Nat) (ha : a ≠ 0)
+    (t : Nat) (ht : t < T)
+    (htouch : ((run (State.initial cfg progs) sched).th t).op.touch = some a) :
+    1 ≤ ((run (State.initial cfg progs) sched).sh.heap a).cnt ∧
+      ((run (State.initial cfg progs) sched).sh.heap a).live = true :=
+  touched_object_alive_all K N T hK cfg progs sched he hf a ha t ht htouch
+
+theorem C01_every_count_step_no_fault_partial (K N T : Nat) (hK : 0 < K) (cfg : Cfg)
+    (progs : Nat → List (String × Op)) (sched : List (Nat × Bool))
+    (he : EnvRun0 K N T (State.initial cfg progs) sched)
+    (hf : (run (State.initial cfg progs) sched).sh.fault = none) (a : Nat) (ha : a ≠ 0)
+    (t : Nat) (ht : t < T) (b : Bool)
+    (htouch : ((run (State.initial cfg progs) sched).th t).op.touch = some a) :
+    (microStep (run (State.initial cfg progs) sched) t b).1.sh.fault = none :=
+  count_step_no_fault_all K N T hK cfg progs sched he hf a ha t ht b htouch
+
+/-- **C01 on the machine, for the executions of the ledger: no fault is ever raised.**  Along every
+    execution — any number of threads below `T`, any programs over registers and containers below
+    `N`, any schedule, any wrap modulus — that keeps the program discipline (registers are not
+    raced on, containers are created on fresh cells), has room in the pool, links at most `K` nodes
+    and in which no hand-over succeeds, the fault flag of the machine stays clear: no use-after-free
+    (no count operation and no dereference on a destroyed object), no double free, no assertion or
+    `expect` of the crate, no stuck state.  The proof composes everything above: a step that touches
+    a count touches a live object (`C01_every_count_touched_only_while_alive_partial`, null is never
+    counted: `Inv/NonNull`); a dereference through a guard finds its value alive
+    (`C01_guard_deref_no_fault_partial`, `C06_closure_sees_live_value_partial`); every other step can
+    raise nothing but an assertion (`Inv/FaultFree`), and no assertion fires (`C13`).  Partial only
+    in the executions covered: hand-overs of the helping protocol are excluded (`NoEnv`). -/
+theorem C01_no_fault_ever_partial (K N T : Nat) (hK : 0 < K) (cfg : Cfg)
+    (progs : Nat → List (String × Op)) (sched : List (Nat × Bool))
+    (he : EnvRun0 K N T (State.initial cfg progs) sched) :
+    (run (State.initial cfg progs) sched).sh.fault = none :=
+  env_run_fault_free K N T hK cfg progs sched he
+
+/-- … in particular no use-after-free: the statement of C01 (`fault ≠ uaf`) for these executions -/
+theorem C01_no_use_after_free_partial (K N T : Nat) (hK : 0 < K) (cfg : Cfg)
+    (progs : Nat → List (String × Op)) (sched : List (Nat × Bool))
+    (he : EnvRun0 K N T (State.initial cfg progs) sched) (what : String) (a : Nat) :
+    (run (State.initial cfg progs) sched).sh.fault ≠ some (.uaf what a) := by
+  rw [env_run_fault_free K N T hK cfg progs sched he]; intro h; cases h
+
+/-- … and the next step of any thread, whatever it does, raises none either -/
+theorem C01_next_step_no_fault_partial (K N T : Nat) (hK : 0 < K) (cfg : Cfg)
+    (progs : Nat → List (String × Op)) (sched : List (Nat × Bool))
+    (he : EnvRun0 K N T (State.initial cfg progs) sched) (t : Nat) (ht : t < T) (b : Bool)
+    (hok : EnvOK0 K N (run (State.initial cfg progs) sched) t b) :
+    (microStep (run (State.initial cfg progs) sched) t b).1.sh.fault = none :=
+  env_step_no_fault K N T hK cfg progs sched he (env_run_fault_free K N T hK cfg progs sched he) t ht b
+    (fun txt o rest hp => (hok.next txt o rest hp).1)
+
+/-- non-vacuity of `C01_no_fault_ever_partial` and of everything stated for `EnvRun0`: the
+    assumptions are met by concrete executions of any length (`Inv/EnvEx`: `envRun0B` is an
+    executable, sound check of `EnvRun0`) — here the 93 steps of `hazSchedH2`: a reader on the
+    fallback path publishes its candidate, a concurrent writer replaces the content of the
+    container, walks the list, finds the reader's window closed, pays the debt in the helping slot;
+    the reader's own pay-off fails and it gives its extra reference back; both threads exit -/
+example : EnvRun0 2 4 2 hazExH hazSchedH2 ∧ ((run hazExH hazSchedH2).th 0).op = .finished ∧
+    ((run hazExH hazSchedH2).th 1).op = .finished ∧ ((run hazExH hazSchedH2).sh.heap 1).cnt = 1 :=
+  ⟨envRun0_of_B ⟨_, _, [], rfl⟩ (by decide +kernel), by decide +kernel, by decide +kernel, by decide +kernel⟩
+
+/-- non-vacuity of the helping-slot theorems: the concrete execution `hazSchedH` of `hazExH`
+    (Inv/HazH4) is tame and fault-free, leaves no envelope, and ends with thread 0 about to take
+    its own reference to value 1 (`fokInc 1`), which the helping slot of its node names and which is
+    in no container any more; thread 1, which took it out, is walking and has not reached the list -/
+example : TameRun2 4 2 hazExH hazSchedH ∧ ((run hazExH hazSchedH).th 0).op.lp? = some (.fokInc 1) ∧
+    ((run hazExH hazSchedH).th 0).op.touch = some 1 ∧
+    ((run hazExH hazSchedH).sh.nodes 0).hslot = .ptr 1 ∧ (run hazExH hazSchedH).sh.cells 0 = some 2 ∧
+    (run hazExH hazSchedH).sh.fault = none ∧ ((run hazExH hazSchedH).th 1).op.walkC? = some (1, .inc) :=
+  ⟨tameRun2_of_B (by decide +kernel), by decide +kernel, by decide +kernel, by decide +kernel, by decide +kernel,
+   by decide +kernel, by decide +kernel⟩
+
 /-- non-vacuity: a thread about to drop a handle to object 1 is at a touching step -/
 example : (OpSt.droph 1).touch = some 1 ∧ (OpSt.droph 1).lp? ≠ some (.fokInc 1) ∧
     (OpSt.swapPay 0 0 1 true .inc).touch = some 1 ∧ (OpSt.load 0 0 (.a3 1 0)).touch = none :=
@@ -459,10 +596,11 @@ example : TameRun2 4 2 hazExD hazSchedD ∧ ((run hazExD hazSchedD).th 0).op = .
   ⟨tameRun2_of_B (by decide +kernel), by decide +kernel, by decide +kernel, by decide +kernel⟩
 
 /-!
-What is left of C01 on the machine: a guard whose debt is in the *helping* slot while its load is
-still inside the fallback (the hazard argument there goes through the control word and the
-generation, and holds only up to a wrap of the generation counter during one stalled help, as the
-crate's documentation says), and the composition with executions that hand a replacement over.
+What is left of C01 on the machine: the composition with executions in which a hand-over
+*succeeds* (a writer's replacement reaches the reader through the envelope: `NoEnv` is an assumption
+of `EnvRun0`).  There the protection of the reader's candidate goes through the generation in the
+control word and holds only up to a wrap of the generation counter during one stalled help, as the
+crate's documentation says; the ledger (`Inv/Acct*`) does not account for envelopes either.
 -/
 
 end C01
